@@ -10,6 +10,7 @@ export class RangeListManager {
   rawKeys!: string[]
   keyMap!: { [key: string]: number }
   sharedKeyMap!: { [key: string]: number[] } | undefined
+  sharedKeyItems!: { [key: string]: DataValue } | undefined
   items!: DataValue[]
   indexes!: (string | number)[] | null
   ownerShadowRoot: ShadowRoot
@@ -97,6 +98,7 @@ export class RangeListManager {
     const rawKeys = new Array<string>(items.length)
     const keyMap = Object.create(null) as { [key: string]: number }
     let sharedKeyMap: { [key: string]: number[] } | undefined
+    let sharedKeyItems: { [key: string]: DataValue } | undefined
     if (keyName !== null) {
       // firstly, find all unique keys and shared keys
       for (let i = 0; i < items.length; i += 1) {
@@ -124,16 +126,20 @@ export class RangeListManager {
           this.ownerShadowRoot.getHostNode(),
           this.elem,
         )
+        sharedKeyItems = Object.create(null) as { [key: string]: DataValue }
         for (let i = 0; i < keys.length; i += 1) {
           const key = keys[i]!
-          const items = sharedKeyMap[key]!
+          const indexList = sharedKeyMap[key]!
           let inc = 0
-          for (let j = 0; j < items.length; j += 1) {
-            const index = items[j]!
+          for (let j = 0; j < indexList.length; j += 1) {
+            const index = indexList[j]!
             while (keyMap[`${key}--${inc}`] !== undefined) inc += 1
             const k = `${key}--${inc}`
             keyMap[k] = index
             rawKeys[index] = k
+            // which item a generated key stands for depends on the order of the items that share
+            // the key: remember it, so that the next diff can tell whether it is the same one
+            sharedKeyItems[k] = items[index]
           }
         }
       }
@@ -141,6 +147,7 @@ export class RangeListManager {
     this.rawKeys = rawKeys
     this.keyMap = keyMap
     this.sharedKeyMap = sharedKeyMap
+    this.sharedKeyItems = sharedKeyItems
   }
 
   diff(
@@ -160,10 +167,12 @@ export class RangeListManager {
     const oldRawKeys = this.rawKeys
     const oldKeyMap = this.keyMap
     const oldSharedKeyMap = this.sharedKeyMap
+    const oldSharedKeyItems = this.sharedKeyItems
     const oldIndexes = this.indexes
     this.updateKeys(dataList)
     const newRawKeys = this.rawKeys
     const newSharedKeyMap = this.sharedKeyMap
+    const newSharedKeyItems = this.sharedKeyItems
     const items = this.items
     const indexes = this.indexes
     const keyName = this.keyName
@@ -209,6 +218,13 @@ export class RangeListManager {
         for (let i = 0; i < newRawKeys.length; i += 1) {
           const k = newRawKeys[i]!
           if (oldSharedKeyMap?.[k] !== undefined || newSharedKeyMap?.[k] !== undefined) {
+            updatePathTree[i] = true
+          } else if (
+            newSharedKeyItems !== undefined &&
+            k in newSharedKeyItems &&
+            (oldSharedKeyItems === undefined || oldSharedKeyItems[k] !== newSharedKeyItems[k])
+          ) {
+            // a generated key of a shared key now stands for another item than before
             updatePathTree[i] = true
           } else {
             const subTree = (oriUpdatePathTree as { [s: string]: UpdatePathTreeNode })[i] as
